@@ -27,6 +27,34 @@ func init() {
 			func(k int) bool { ep = append(ep, k); capProbes(ep); return b <= k && k < e })
 		return fmt.Sprintf("r=%d lp=%s ep=%s", r, fmtInts(lp), fmtInts(ep))
 	})
+	// c14N: as c14T, but both predicates call sortx.Search themselves (a rank lookup in another sorted
+	// virtual list) while the outer Search is running: a call must not disturb the call it is nested in
+	register("c14N", func(toks []string) string {
+		n, b, e := atoi(toks[1]), atoi(toks[2]), atoi(toks[3])
+		const m = 37
+		innerBad := 0
+		inner := func(k int) {
+			bb := k % (m + 1)
+			if bb < 0 {
+				bb = -bb
+			}
+			got := sortx.Search(m, func(j int) bool { return j < bb }, func(j int) bool { return j == bb })
+			want := bb
+			if bb == m {
+				want = ^m
+			}
+			if got != want {
+				innerBad++
+			}
+		}
+		var lp, ep []int
+		r := sortx.Search(n, func(k int) bool { lp = append(lp, k); capProbes(lp); inner(k); return k < b },
+			func(k int) bool { ep = append(ep, k); capProbes(ep); inner(k); return b <= k && k < e })
+		if innerBad > 0 {
+			return fmt.Sprintf("r=%d lp=%s ep=%s INNER-WRONG=%d", r, fmtInts(lp), fmtInts(ep), innerBad)
+		}
+		return fmt.Sprintf("r=%d lp=%s ep=%s", r, fmtInts(lp), fmtInts(ep))
+	})
 	list := func(desc bool) handler {
 		return func(toks []string) string {
 			t := atoi(toks[1])
